@@ -646,3 +646,109 @@ func Wilden(r *gen.R, f *File, p float64) {
 		}
 	}
 }
+
+// TwinBlocks follows every block of f by a twin: a block of exactly the same structure (same
+// counts, same presence bits, same string lengths, same table size and order seed) whose
+// values all differ — or, every third time, by an exact copy. Anything a reader carries over
+// from one block to the next because "it looks the same" (a table cached by size, a column
+// reused because lengths match) shows up as a value of the wrong twin.
+func TwinBlocks(r *gen.R, f *File, clone func(*Block) *Block) {
+	rot := func(s string) string {
+		rs := []rune(s)
+		for i, c := range rs {
+			switch {
+			case c >= 'a' && c < 'z', c >= 'A' && c < 'Z', c >= '0' && c < '9':
+				rs[i] = c + 1
+			case c == 'z':
+				rs[i] = 'a'
+			case c == 'Z':
+				rs[i] = 'A'
+			case c == '9':
+				rs[i] = '0'
+			}
+		}
+		return string(rs)
+	}
+	tags := func(ts []Tag) {
+		for i := range ts {
+			ts[i].K, ts[i].V = rot(ts[i].K), rot(ts[i].V)
+		}
+	}
+	info := func(in *Info) {
+		if in == nil {
+			return
+		}
+		if in.Version != nil {
+			*in.Version++
+		}
+		if in.Timestamp != nil {
+			*in.Timestamp++
+		}
+		if in.Changeset != nil {
+			*in.Changeset++
+		}
+		if in.UID != nil {
+			*in.UID++
+		}
+		if in.User != nil {
+			*in.User = rot(*in.User)
+		}
+		if in.Visible != nil {
+			*in.Visible = !*in.Visible
+		}
+	}
+	var out []*Block
+	for i, b := range f.Blocks {
+		out = append(out, b)
+		t := clone(b)
+		if i%3 != 2 {
+			for j := range t.ExtraStrings {
+				t.ExtraStrings[j] = rot(t.ExtraStrings[j])
+			}
+			for _, g := range t.Groups {
+				switch g.Kind {
+				case KDense:
+					for k := range g.Dense.Nodes {
+						x := &g.Dense.Nodes[k]
+						x.ID += 1_000_000
+						x.Lat++
+						x.Lon--
+						x.Version++
+						x.Timestamp++
+						x.Changeset++
+						x.UID++
+						x.User = rot(x.User)
+						x.Visible = !x.Visible
+						tags(x.Tags)
+					}
+				case KWays:
+					for _, w := range g.Ways {
+						w.ID += 1_000_000
+						info(w.Info)
+						tags(w.Tags)
+						for k := range w.Refs {
+							w.Refs[k] += 3
+						}
+						for k := range w.Lats {
+							w.Lats[k]++
+							w.Lons[k]--
+						}
+					}
+				case KRelations:
+					for _, rel := range g.Relations {
+						rel.ID += 1_000_000
+						info(rel.Info)
+						tags(rel.Tags)
+						for k := range rel.Members {
+							rel.Members[k].ID += 5
+							rel.Members[k].Role = rot(rel.Members[k].Role)
+							rel.Members[k].Type = (rel.Members[k].Type + 1) % 3
+						}
+					}
+				}
+			}
+		}
+		out = append(out, t)
+	}
+	f.Blocks = out
+}
